@@ -159,6 +159,9 @@ def judge(case, out, m):
                 content, mime = exp[key]
                 if status != 200: v.append(('violation', f'GET {p!r}: status {status}, the file exists'))
                 elif body != content: v.append(('violation', f'GET {p!r}: body differs from the file'))
+                elif hs.get(b'Content-Length') != str(len(content)).encode() and hs.get(b'Transfer-Encoding') != b'chunked':
+                    # what a client receives is what the message's framing delimits, not what happens to follow on the connection
+                    v.append(('violation', f'GET {p!r}: Content-Length {hs.get(b"Content-Length")!r} but the file has {len(content)} bytes (a client reads {hs.get(b"Content-Length", b"?").decode()} of them)'))
                 elif not hs.get(b'Content-Type', b'').decode().startswith(mime): v.append(('violation', f'GET {p!r}: Content-Type {hs.get(b"Content-Type")!r}, extension says {mime}'))
             elif status != 404: v.append(('violation', f'GET {p!r}: status {status} with {len(body)} body bytes, but no file is at this path'))
         if mm is not None:
